@@ -45,6 +45,10 @@ Definition encode_msg (buf:bytes) (typ:N) (txid:bytes) (l:list eattr) : res (byt
 Definition monitor_C14_tail (observed:option (option N)) (tail_same:bool) : bool :=
   match observed with Some (Some _) => tail_same | _ => true end.
 
+(* "the bytes written and the size returned do not depend on the buffer's ... previous contents": the harness encodes the
+   same message into a buffer with every byte inverted and says whether outcome, size and written bytes were the same *)
+Definition monitor_C14_indep (same:bool) : bool := same.
+
 (* MessageType::as_u16 (message.rs:58-64): M11..M7 C1 M6..M4 C0 M3..M0 *)
 Definition msg_type_of (method class:N) : N :=
   N.lor (N.lor (N.lor (N.shiftl (N.land method 0xF80) 2) (N.shiftl (N.land method 0x70) 1)) (N.land method 0xF))
